@@ -205,6 +205,7 @@ type Sched struct {
 	abandoned bool
 	objLast   map[any]uint64
 	global    uint64 // hash of the latest global event (timer firing, quiescence wake-up)
+	endRA     RaceAddr // finishing thread -> Run edge (the harness reads the execution's results afterwards)
 }
 
 // Event is an entry of the per-execution event log that shims and harness doubles append to; the
@@ -282,6 +283,7 @@ func Run(ch Chooser, cfg Config, main func()) *Result {
 	t0.resume <- struct{}{}
 	<-s.endCh
 	raceHandoffIn()
+	s.endRA.Acquire()
 	// unwind everything that is still parked
 	s.aborting = true
 	for i := 0; i < len(s.threads); i++ { // threads may not grow during abort
@@ -397,11 +399,13 @@ func trimStack(st string) string {
 //
 //go:norace
 func (s *Sched) finish() {
-	raceHandoffOut()
 	if s.ended {
+		raceHandoffOut()
 		return
 	}
 	s.ended = true
+	s.endRA.Release()
+	raceHandoffOut()
 	s.endCh <- struct{}{}
 }
 
